@@ -142,6 +142,7 @@ func init() {
 		Plan: []planEntry{
 			{Engine: "A", Scenario: "member", Quick: 30, Thorough: 400},
 			{Engine: "A", Scenario: "everything", Quick: 8, Thorough: 100},
+			{Engine: "A", Scenario: "uncommitted-config", Params: "seg=1024", Quick: 6, Thorough: 60},
 		},
 		Rule:       "seeded live-cluster runs submitting random legal and illegal ChangeConfig requests (add non-voter +/- promote, promote, demote, remove, force-remove, several actions at once, direct flips and drops) with leader isolation / transfer / crash while actions are pending; non-trivial if at least 4 configuration entries were chained to a predecessor; distinct = distinct abstract trace",
 		Nontrivial: all(ge("config-chain-links", 4)),
@@ -208,6 +209,7 @@ func init() {
 			{Engine: "A", Scenario: "general", Quick: 16, Thorough: 200},
 			{Engine: "A", Scenario: "election", Quick: 10, Thorough: 120},
 			{Engine: "A", Scenario: "member", Quick: 8, Thorough: 100},
+			{Engine: "A", Scenario: "transfer", Quick: 10, Thorough: 120},
 		},
 		Rule:       "restated as bounded progress: seeded fault histories (partitions, crashes, restarts, membership churn, removed nodes that keep campaigning) followed by heal; within 400 ticks (tick = heartbeat timeout / 4) one leader that every live member follows, a fresh update committed, every live member's state machine caught up, membership stable; a miss is extended 4x: still stuck = violation, late = inconclusive; plus leader stickiness on every vote request handled while a leader is known; non-trivial if the run had at least 8 faults and reached the convergence phase; distinct = distinct abstract trace",
 		Nontrivial: all(ge("faults", 8)),
@@ -223,8 +225,9 @@ func init() {
 			{Engine: "A", Scenario: "general", Quick: 16, Thorough: 200},
 			{Engine: "A", Scenario: "snapshot", Quick: 12, Thorough: 150},
 			{Engine: "A", Scenario: "member", Quick: 6, Thorough: 80},
+			{Engine: "A", Scenario: "uncommitted-config", Params: "seg=1024", Quick: 9, Thorough: 90},
 		},
-		Rule:       "seeded live-cluster runs; GetInfo polled on every node twice per heartbeat timeout (public API) and the same inequalities asserted on the node's own fields at every step of its main loop; non-trivial if at least 100 status reports were compared pairwise and at least 1000 steps were checked; distinct = distinct abstract trace",
+		Rule:       "directed scenario (isolated leader appends a configuration entry it never commits; heal / restart / installation) and seeded live-cluster runs; GetInfo polled on every node twice per heartbeat timeout (public API) and the same inequalities asserted on the node's own fields at every step of its main loop; non-trivial if at least 100 status reports were compared pairwise and at least 1000 steps were checked; distinct = distinct abstract trace",
 		Nontrivial: all(ge("status-report-pairs", 100), ge("steps", 1000)),
 		MinQuick:   20, MinThorough: 200,
 		Counters:    []string{"status-reports", "status-report-pairs", "steps", "commit-advances", "truncations", "log-resets", "compactions", "config-changes"},
@@ -293,8 +296,9 @@ func init() {
 			{Engine: "A", Scenario: "snapshot", Quick: 10, Thorough: 120},
 			{Engine: "A", Scenario: "member", Quick: 8, Thorough: 100},
 			{Engine: "A", Scenario: "stale-suffix-install", Params: "seg=1024", Quick: 4, Thorough: 40},
+			{Engine: "A", Scenario: "uncommitted-config", Params: "seg=1024", Quick: 9, Thorough: 90},
 		},
-		Rule:       "directed scenario: TakeSnapshot requested on a leader or follower and held at the start of its goroutine while a membership change commits and is applied, then released, followed by compaction, restart and catch-up of another node; plus seeded snapshot / membership runs; every snapshot file is read back when published or stored and its label compared with the committed log (index, term, newest committed configuration at or below the index; a newer membership must be a committed one); after every restart the membership is compared with log suffix / label; non-trivial if at least one label was checked against a committed configuration entry other than the bootstrap one; distinct = distinct abstract trace",
+		Rule:       "directed scenarios: isolated leader with an uncommitted configuration entry (snapshot + restart, or brought back by installation with its log discarded); TakeSnapshot requested on a leader or follower and held at the start of its goroutine while a membership change commits and is applied, then released, followed by compaction, restart and catch-up of another node; plus seeded snapshot / membership runs; every snapshot file is read back when published or stored and its label compared with the committed log (index, term, newest committed configuration at or below the index; a newer membership must be a committed one); after every restart the membership is compared with log suffix / label; non-trivial if at least one label was checked against a committed configuration entry other than the bootstrap one; distinct = distinct abstract trace",
 		Nontrivial: all(ge("label-memberships-checked", 1), ge("config-entries", 4)),
 		MinQuick:   16, MinThorough: 150,
 		Counters:     []string{"snapshot-files-seen", "labels-checked", "label-memberships-checked", "config-entries", "config-commits", "fsm-restores", "graceful-restarts", "crash-restarts", "compactions"},
